@@ -11,6 +11,7 @@ from concurrent.futures import ThreadPoolExecutor
 from vlib import build, common, harness
 from vlib.harness import hx
 
+REPO_PREFIX = common.REPO_PREFIX
 PID = "C16"
 E_NOMEM = 1
 DATA = "/repo/tests/data/"
@@ -139,7 +140,7 @@ def failed_site(err):
     frames = []
     for m in re.finditer(r"#\d+ 0x[0-9a-f]+ in (\S+) (\S+)", err[i:j if j > i else None]):
         fn, loc = m.group(1), m.group(2)
-        if ("/repo/" in loc or loc.startswith("libyara/")) and fn not in ("yr_malloc", "yr_calloc", "yr_realloc", "yr_strdup", "yr_strndup"):
+        if ((REPO_PREFIX in loc) or loc.startswith("libyara/")) and fn not in ("yr_malloc", "yr_calloc", "yr_realloc", "yr_strdup", "yr_strndup"):
             frames.append(fn)
         if len(frames) >= 2:
             break
